@@ -482,3 +482,28 @@ Proof.
     - split; [cbn; tauto|]. intros x [<-|[<-|[]]]; lia. }
   subst au. vm_compute in Heq. discriminate.
 Qed.
+
+(* ---- Stage 6: histories on one model.  templates_amplitudes / clusters_amplitudes are properties evaluated on
+   the arrays the model holds at the moment of the read: after every caller-side update of model.spike_clusters
+   (merge, split, move, renumbering; in place or by re-assignment) or of model.amplitudes, the result is the
+   per-present-id mean over the CURRENT arrays -- each state of a history is an instance of C09_mean_amps, whatever
+   the earlier states were (Corr.check_hist judges every state of a generated history against mean_amps_Q on the
+   arrays of that state). *)
+Theorem C09_mean_amps_history : forall (states : list (list Z * list Z)),
+  (forall sa, In sa states -> (forall s, In s (fst sa) -> 0 <= s) /\ length (snd sa) = length (fst sa)) ->
+  Forall (fun sa => exists out, mean_amps_Q (fst sa) (snd sa) = Some out /\ Spec_mean_amps (fst sa) (snd sa) out) states.
+Proof.
+  intros states H. apply Forall_forall. intros sa Hin. destruct (H sa Hin) as [Hp Hl].
+  apply C09_mean_amps; assumption.
+Qed.
+Print Assumptions C09_mean_amps_history.
+(* as loaded: ids {0,1,2,3}; clusters 1 and 2 merged into the new id 5 (ids {0,3,5}: two ids vanish, one appears);
+   then half of cluster 3 split off into the new id 6 *)
+Example C09_ex_history :
+  map (fun sa => mean_amps_Q (fst sa) (snd sa))
+      [ ([0; 1; 2; 3; 1; 3], [2; 4; 6; 8; 10; 12]); ([0; 5; 5; 3; 5; 3], [2; 4; 6; 8; 10; 12]);
+        ([0; 5; 5; 6; 5; 3], [2; 4; 6; 8; 10; 12]) ] =
+  [ Some [Some (inject_Z 2 / inject_Z 1); Some (inject_Z 14 / inject_Z 2); Some (inject_Z 6 / inject_Z 1); Some (inject_Z 20 / inject_Z 2)];
+    Some [Some (inject_Z 2 / inject_Z 1); Some (inject_Z 20 / inject_Z 2); Some (inject_Z 20 / inject_Z 3)];
+    Some [Some (inject_Z 2 / inject_Z 1); Some (inject_Z 12 / inject_Z 1); Some (inject_Z 20 / inject_Z 3); Some (inject_Z 8 / inject_Z 1)] ]%Q.
+Proof. vm_compute. reflexivity. Qed.
